@@ -65,7 +65,9 @@ func loadIdentities(now time.Time) {
 	selfSigned = &identity{spec: "EC-256", variant: 1, key: identities["EC-256/1"].key, chain: Chain{ss}, alg: identities["EC-256/1"].alg}
 }
 
-func ident(spec string, variant int) *identity { return identities[fmt.Sprintf("%s/%d", spec, variant)] }
+func ident(spec string, variant int) *identity {
+	return identities[fmt.Sprintf("%s/%d", spec, variant)]
+}
 
 func algHash(a signature.Algorithm) crypto.Hash { return a.Hash() }
 
